@@ -5,6 +5,7 @@ UNITS = {
     "handler": dict(engine="verus", serves=["C01", "C05", "C11", "C14", "C15"]),
     "disk": dict(engine="verus", serves=["C19"]),
     "provision": dict(engine="verus", serves=["C16"]),
+    "telemetry": dict(engine="verus", serves=["C18"]),
     "authorizer": dict(engine="verus", serves=["C03", "C11", "C01"]),
 }
 
@@ -92,6 +93,29 @@ PROPERTIES["C16"] = dict(
     level_text="Deductive proof (Verus/Z3) for every await-point interleaving: each arm of the provision actor (verbatim slices) performs st|s / st&!s / tick:=now|0 and replies the new value; update/reset/timeup set 'finished' only with evidence (a reply showing all three ready, or being the deadline handler), proved against a havocked actor state; that evidence keeps the stored tick truthful under every schedule (induction); the error text is proved equal to one section per not-ready subsystem, empty iff all ready; the /provision handler (whole function, real hyper types) answers that text and finished only if (tick!=0 && tick>=query instant) or latched; status.tag is produced only by rename of a fully written status.tag.tmp.",
     level_note="Trusted: Verus/Z3/rustc; wrapper-method contracts (dispatch loop and tokio channels not verified); bitflags semantics (validated exhaustively by contracts/provision/validate_bitflags.sh); http/hyper/serde_json/std::fs specs; POSIX rename atomic; clock>0; syntactic caller census. Not covered: OS-thread-parallel writers sharing status.tag.tmp, fsync/durability, provisioned.tag, wall-clock monotonicity.",
     design_ref="DESIGN.md section 3 C16",
+    assumptions=[],
+)
+
+PROPERTIES["C18"] = dict(
+    units=["telemetry"],
+    technique="Verus contracts on the extracted real functions: ghost upload/removal trace (E4), counting (multiset) loop invariants with "
+              "termination measures on send_events, view-based contracts on TelemetryData, entity-encoding refinement of xml_escape, "
+              "to_xml_event against a fixed-markup document spec",
+    level_text="Deductive proof (Verus/Z3) for all event lists, sizes, contents and upload-failure patterns: send_events, extracted verbatim, "
+               "terminates (decreases on both loops), puts every event value into the batches at most as often as it occurs in the input, "
+               "drops only events whose singleton document already reaches 65536 bytes, and every batch it hands on is non-empty and "
+               "< 65536 bytes (UTF-8) of the document to_xml builds; send_data_to_wire_server uploads that same document 1..5 times and "
+               "re-sends only after a failed attempt; process_events_and_clean calls clean_files for every input file on the Ok and the Err "
+               "read path; xml_escape is proved to be the one-pass entity encoding (no < > \" ' in the result, decodes back to the original "
+               "text) and to_xml_event to emit exactly the fixed markup with encoded/decimal values; the only `]]>` in an event is its own "
+               "closing one.",
+    level_note="Trusted: Verus/Z3/rustc; send_telemetry_data's trace-append contract; from_event_log is a function of its arguments; derived "
+               "Clone of VmMetaData; str::replace(char,&str) is a per-char flat map; String::len is UTF-8 bytes; format! with one {} "
+               "concatenates literal pieces and Display(arg), u64 shown as decimal digits (23 generated stubs, contract read from the tree's "
+               "literals); [0;5] yields 5 items; Display does not panic. Not covered: the host's XML parser; HTTP layer below "
+               "send_telemetry_data; file-system faults (a refused removal makes the next scan re-read the file); the usize overflow of the "
+               "log-only event counter (E9, C13 scope); process_events / loop_reader (callers) are not under contract.",
+    design_ref="DESIGN.md section 3 C18",
     assumptions=[],
 )
 
